@@ -390,6 +390,19 @@ def gen_overrides(g, r):
             out.append({"node": n["name"], "values": {"constant_demand": F(5)}})
         elif cls == "Reservoir":
             out.append({"node": n["name"], "values": {"capacity": n["capacity"] * 2}})
+        elif cls == "Groundwater":
+            if n.get("node_type_override") == "QueueGroundwater":
+                out.append({"node": n["name"], "values": r.choice([{"timearea": {0: F(1, 2), 2: F(1, 2)}}, {"capacity": n["capacity"] * 2},
+                                                                   {"timearea": {0: F(1, 4), 1: F(3, 4)}, "capacity": n["capacity"] / 2}])})
+            else:
+                out.append({"node": n["name"], "values": r.choice([{"capacity": n["capacity"] / 2}, {"capacity": n["capacity"] * 2, "infiltration_pct": F(1, 2)},
+                                                                   {"infiltration_threshold": F(1, 10), "infiltration_pct": F(1, 2)},
+                                                                   {"residence_time": F(3)}, {"capacity": n["capacity"] / 4, "residence_time": F(2)}])})
+        elif cls == "Sewer":
+            out.append({"node": n["name"], "values": r.choice([{"capacity": n["capacity"] * 3}, {"pipe_time": 1}, {"pipe_time": 2, "capacity": n["capacity"] * 2},
+                                                               {"pipe_timearea": {0: F(1, 4), 1: F(1, 2), 3: F(1, 4)}}, {"pipe_time": 0, "pipe_timearea": {1: F(1)}}])})
+        elif cls == "RiverReservoir":
+            out.append({"node": n["name"], "values": r.choice([{"capacity": n["capacity"] * 2}, {"environmental_flow": F(3)}])})
     for a in g.arcs:
         if a["type_"] == "Arc" and r.random() < 0.1:
             out.append({"arc": a["name"], "values": {"capacity": F(r.choice([3, 9]))}})
@@ -484,7 +497,7 @@ def gen_model(r, ndates=4, polset=None, size=None, opts=None):
         g.arc(swl, ww, cap=r.choice([None, F(8)]))
         if r.random() < 0.6:
             g.arc(swl, rivers[-1], pref=F(1, 1000))          # overflow
-        g.arc(ww, rivers[-1], cap=r.choice([None, None, F(6)]))
+        g.arc(ww, rivers[-1], cap=r.choice([None, F(6), F(2)]))
         leak_gw = None
         if r.random() < 0.5:
             leak_gw = g.groundwater()
@@ -496,7 +509,7 @@ def gen_model(r, ndates=4, polset=None, size=None, opts=None):
     # ---- land
     if size in ("land", "full"):
         ld = g.land(growing=opts.get("growing", False))
-        gw = g.groundwater(queue=r.random() < 0.3)
+        gw = g.groundwater(queue=r.random() < 0.45)
         g.arc(ld, gw)
         g.arc(gw, r.choice(rivers))
         g.arc(ld, r.choice(rivers))
@@ -512,6 +525,29 @@ def gen_model(r, ndates=4, polset=None, size=None, opts=None):
             g.arc(ld, sws[0], cap=r.choice([None, F(3)]))
             if gw and r.random() < 0.5 and not any(n["name"] == gw and n.get("node_type_override") == "QueueGroundwater" for n in g.nodes):
                 g.arc(gw, sws[0])
+        # an abstraction from the aquifer (a stream of its own: the models of earlier generator versions stay as they were)
+        rx = random.Random(str(r.getstate()[1][:4]))
+        if rx.random() < 0.4 and not opts.get("no_gw_abstraction"):
+            fws = [n["name"] for n in g.nodes if n["type_"] == "FWTW"]
+            gwd = next(n for n in g.nodes if n["name"] == gw)
+            if gwd.get("node_type_override") == "QueueGroundwater":
+                # water that arrives from the time-area queue at close-out is there to be abstracted in the next timestep,
+                # mostly from a store whose queue decays meanwhile
+                gwd["timearea"] = rx.choice([{0: F(1, 2), 1: F(1, 2)}, {0: F(1, 4), 1: F(1, 2), 2: F(1, 4)}, {1: F(1)}])
+                adds, _ = g.pols()
+                if adds and "decays" not in gwd and rx.random() < 0.6:
+                    gwd["decays"] = {p_: {"constant": rx.choice([F(1, 100), F(1, 2), F(3, 2)]), "exponent": rx.choice([F(1), F(1001, 1000), F(2)])}
+                                     for p_ in adds[:2]}
+                    gwd["data_input_dict"] = g.data({"temperature": [temp(rx) for _ in range(g.n)]})
+            if fws and rx.random() < 0.7:
+                g.arc(gw, fws[0], type_="PullArc")
+            else:
+                keep = (g.r, g.rp)
+                g.r, g.rp = rx, random.Random(rx.random())
+                try:
+                    g.arc(gw, g.reservoir(), type_="PullArc", cap=rx.choice([None, F(4), F(9)]))
+                finally:
+                    g.r, g.rp = keep
     if opts.get("arc_mix"):
         mix_arcs(g, r, opts["arc_mix"])
     if opts.get("shuffle", True) and r.random() < 0.5:
